@@ -34,7 +34,7 @@ type descOutcome struct {
 
 // evalDescriptor interprets a descriptor's Function body and classifies each outcome.
 func evalDescriptor(c *core.Ctx, t *fnTable, d *tables.Descriptor, ids map[string]int64, extra callHook, cond func(st *absint.State, atom string) (bool, bool)) ([]descOutcome, error) {
-	in := &absint.Interp{Info: t.info, Prog: c.Prog, MaxPaths: 3000}
+	in := withMaxPaths(newLitInterp(c.Prog, t.info, "functions"), 3000)
 	in.Hooks.Call = chainCall(extra, ctorHook(ids), errorfHook)
 	in.Hooks.Cond = cond
 	outs, err := runLit(in, d.Function, nil, "")
@@ -469,7 +469,7 @@ func checkInNotIn(c *core.Ctx, t *fnTable, ids map[string]int64) {
 				coll = kinds[1].String()
 			}
 			key := fmt.Sprintf("functions.%s(%s)", name, coll)
-			in := &absint.Interp{Info: t.info, Prog: c.Prog}
+			in := newLitInterp(c.Prog, t.info, "functions")
 			// reference automaton over the elements seen so far: "" none relevant, "N" a NULL element, "hit" an equal
 			// element, "hit!" anything after an equal element
 			in.Hooks.Loop = func(st *absint.State, loop ast.Stmt) *absint.LoopSpec {
@@ -613,7 +613,7 @@ func checkStringConversion(c *core.Ctx, t *fnTable, ids map[string]int64) {
 	}
 	for _, kind := range []string{"TypeIDString", "TypeIDTime", "TypeIDInt"} {
 		kind := kind
-		in := &absint.Interp{Info: t.info, Prog: c.Prog}
+		in := newLitInterp(c.Prog, t.info, "functions")
 		in.Hooks.Field = func(st *absint.State, base absint.Val, sel string) (absint.Val, bool) {
 			if sel == "TypeID" && base.Canon() == "values[0]" {
 				return absint.Int(ids[kind]), true
